@@ -79,6 +79,25 @@ def gen_invalid(rng, t):
     return tr
 
 
+F25_KEY = "F25:target-dragged-by-both-ends-of-a-trace-alongside"
+ONTRACE = "a branch leaves the input traces by more than the threshold"
+
+
+def f25_region(ctx, c, b) -> bool:
+    """trigger of known finding F25: some trace has BOTH ends within 2 x snap of one and the same other trace (it runs alongside it: an
+    invalid, stacked input), and the branches stay within 2 x snap of the input traces (one drag per end)"""
+    from shapely.geometry import LineString, Point
+
+    ls = [LineString(l) for l in c["traces"]]
+    t2 = 2 * c["t"]
+    trig = any(i != j and Point(c["traces"][i][0]).distance(ls[j]) < t2 and Point(c["traces"][i][-1]).distance(ls[j]) < t2
+               for i in range(len(ls)) for j in range(len(ls)))
+    if not trig:
+        return False
+    m = parse_resp(ctx.driver.batch([f"cover t={rat(2 * F(c['t']))} areas={c['areas']} traces={lines(c['traces'])} branches={lines(b)}"])[0])
+    return m.get("ontrace") == "1"
+
+
 def judge(ctx, cases, res, stream):
     outs_args = [(c["traces"], c["area_wkts"], c["t"]) for c in cases]
     with mp.get_context("fork").Pool(16, maxtasksperchild=16) as pool:
@@ -101,7 +120,7 @@ def judge(ctx, cases, res, stream):
         res.distribution[c["kind"]] = res.distribution.get(c["kind"], 0) + 1
         problems = []
         if m.get("ontrace") != "1":
-            problems.append("a branch leaves the input traces by more than the threshold")
+            problems.append(ONTRACE)
         if m.get("inarea") != "1":
             problems.append("a branch lies outside the target areas")
         if m.get("overlap") == "1":
@@ -116,6 +135,8 @@ def judge(ctx, cases, res, stream):
                 problems.append(f"total branch length {br_len!r} != length of the traces inside the areas {clip_len!r}")
         if len(res.samples) < 2:
             res.samples.append({"traces": c["traces"][:3], "t": c["t"], "model": resp[:160]})
+        if problems == [ONTRACE] and not c["valid"] and f25_region(ctx, c, b):
+            c["finding_key"] = F25_KEY
         if problems:
             res.disagreements.append(Disagreement(stream, c, resp[:300], {"branches": len(b)}, True, "; ".join(problems)[:400]))
 
@@ -194,6 +215,15 @@ def s04_stubs(ctx):
 
 
 STREAMS = [s04_invalid, s04_valid, s04_stubs]
+
+
+def replay_finding(ctx, k):
+    import json
+
+    from harness.common import VERIF
+
+    case = json.loads((VERIF / k["witness"]).read_text())["case"]
+    return replay(ctx, case["stream"], case) is not None
 
 
 def replay(ctx, stream, case):
